@@ -862,6 +862,13 @@ func (a *Agent) TaskPrepare(Command int, Info any, Message *map[string]string, C
 			Argument  []byte
 		)
 
+		// the client sends the shellcode arguments under the key "Arguments"
+		if _, ok := Optional["Argument"]; !ok {
+			if val, ok := Optional["Arguments"]; ok {
+				Optional["Argument"] = val
+			}
+		}
+
 		if val, ok := Optional["Way"]; ok {
 
 			if val.(string) == "Inject" {
